@@ -73,6 +73,15 @@ inline bool has_long_exponent(const std::u32string &t) {
     return false;
 }
 
+inline void long_exponent_policy() {
+    qsim::set_stall_abandon(true);
+#ifdef QSIM_OPT
+    // the optimiser twins have no step clock worth the name: only the wrapped memcpy / memset calls count, and clang -O3
+    // turns the digit loop of powerOfPositiveTen into such calls (1.6e8 of them for `7e-99999999999999999999`)
+    qsim::set_soft_budget(true);
+#endif
+}
+
 // A caller's thin wrapper around one library call: a small optimisation unit of its own, as in user code. Inside the
 // worlds' large interpreters the optimiser gives up early; in a unit this small it uses everything it may assume
 // (the optimiser twins found GCC -O3 dropping stores made through another union member's type only here).
